@@ -30,7 +30,7 @@ def check(run):
     recs = []
     if "harness" not in fails:
         n = 2000 if run.tier == "thorough" else 400
-        for sub, args in (("null", []), ("directed", cc.directed_args(run.tier)), ("gen", [n])):
+        for sub, args in (("null", []), ("directed", cc.directed_args(run.tier)), ("gen", [n]), ("reuse", [600 if run.tier == "thorough" else 200])):
             rc, rs, err = cc.harness_records(sub, args, run.seed)
             if rc != 0:
                 broken.append("harness cql %s failed rc=%s: %s" % (sub, rc, err))
@@ -79,6 +79,14 @@ def check(run):
             findings.append(dict(cc.slim(r), kind="nested-null-encode-failed", what="%s %s (as %s, v%d): Encode %s: %s" % (r["type_cql"], r["val_coq"][:300], r["rep"], r["ver"], r["enc_class"], r.get("err", "")[:200])))
         if cc.usable(r):
             ccases.append((r["id"], "enc_agrees %d %s %s %s %s" % (r["ver"], r["type_coq"], r["val_coq"], cc.coqbool(r["unordered"]), cc.eobs(r))))
+    # ---- NULL into re-used destinations: a NULL element / field / value (and a NULL or empty whole value) decoded into a variable that
+    #      already holds a non-NULL value there must leave the zero value, for every container representation (model-free predicate),
+    #      and the Go-representation model must agree on the very same cases
+    rf, rn = cc.reuse_findings(recs, null_only=True)
+    findings += rf
+    evaluations += rn
+    nontrivial |= {("reuse", r["type_coq"], r["rep"], r["input"], r["val_coq"]) for r in recs if r["kind"] == "reuse" and (r["input"] != "value" or "VNull" in r["val_coq"])}
+    ccases += [c for c, r in zip(cc.reuse_cases(recs), [r for r in recs if r["kind"] == "reuse" and r.get("gty")]) if r["input"] != "value" or "VNull" in r["val_coq"]]
     if model_ok and ccases:
         ok, bad, log = cc.eval_cases("Cases_C14", [], ccases)
         if not ok:
@@ -91,7 +99,8 @@ def check(run):
     run.coverage["rule"] = ("nullenc: one per (codec, nil-able Go source type, version class); nulldec: one per (codec, destination Go type pre-filled non-zero, nil|empty input, version class); "
                             "nested: generated / directed values containing NULL inside containers; non-trivial = distinct such tuples; correspondence = model vs code on the same cases in coqc")
     run.coverage["input_distribution"] = {"nullenc": sum(1 for r in recs if r["kind"] == "nullenc"), "nulldec": sum(1 for r in recs if r["kind"] == "nulldec"),
-                                          "nested_null_cases": len(cases), "nested_v2": sum(1 for r in cases if r["ver"] < 3)}
+                                          "nested_null_cases": len(cases), "nested_v2": sum(1 for r in cases if r["ver"] < 3),
+                                          "null_into_reused_destination": rn}
     run.coverage["samples"] = [{k: r[k] for k in ("type_cql", "go_type", "class", "is_nil")} for r in recs if r["kind"] == "nullenc"][:3] + \
                               [{k: r[k] for k in ("type_cql", "go_type", "input", "was_null", "zeroed")} for r in recs if r["kind"] == "nulldec"][:3]
     run.coverage["exhaustive"] = False
